@@ -73,7 +73,8 @@ def jobs(tier):
                 else 900, crosscheck=0 if q else 20),
            dict(name='dict_value', part='dict_value', budget_s=100),
            dict(name='batch', part='batch', budget_s=60),
-           dict(name='units', part='units', budget_s=60)]
+           dict(name='units', part='units', budget_s=60),
+           dict(name='arrays', part='arrays', budget_s=60)]
     for depth in (0, 1, 2):
         out.append(dict(name='store-d%d' % depth, part='store', depth=depth,
                         budget_s=100))
@@ -297,6 +298,34 @@ def part_batch(ctx, cfg):
                                len(seen) == 2 and EQ(seen[0], u1),
                                len(seen) == 2 and EQ(seen[1], u2), EQ(x, u2)),
               sig='batch', info=lambda: dict(seen=seen, final=x))
+
+
+def part_arrays(ctx, cfg):
+    """numpy arrays: concrete values chosen by forking (not solver-decided)."""
+    import numpy as np
+    vs = [np.array([1, -2, 3]), np.array([0.5, -0.5]), np.zeros(2)]
+    us = [np.array([-2, 1, -5]), np.array([-1.0, 0.25]), np.array([0.0, -0.0])]
+    i = ctx.choice('arr', len(vs))
+    v, u = vs[i].copy(), us[i].copy()
+    v0, u0 = v.copy(), u.copy()
+    ok = [np.array_equal(update_accumulate(v.copy(), u), v0 + u0),
+          np.array_equal(update_set(v.copy(), u), u0),
+          np.array_equal(update_null(v.copy(), u), v0),
+          np.array_equal(update_nonnegative_accumulate(v.copy(), u),
+                         np.maximum(v0 + u0, 0)),
+          np.array_equal(u, u0)]
+    st = Store({'a': {'_default': v.copy()},
+                'nn': {'_default': v.copy(),
+                       '_updater': 'nonnegative_accumulate'}})
+    st.apply_defaults()
+    st.apply_update({'a': u, 'nn': u})
+    g = st.get_value()
+    ok += [np.array_equal(g['a'], v0 + u0),
+           np.array_equal(g['nn'], np.maximum(v0 + u0, 0)),
+           np.array_equal(u, u0)]
+    ctx.claim('C08.functions', all(ok), sig='arrays', info=lambda: dict(
+        v=v0.tolist(), u=u0.tolist(), got={k: x.tolist()
+                                           for k, x in g.items()}))
 
 
 def part_units(ctx, cfg):
